@@ -1,0 +1,55 @@
+//go:build !verif
+
+package pipeline
+
+// Empty, inlineable stubs of the verification trace hooks (see verif_on.go).
+
+const (
+	evSubBegin = iota
+	evSubOk
+	evSubFail
+	evSubFailStop
+	evStopCancel
+	evStopClose0
+	evStopClose1
+	evStopClose2
+	evStopClose3
+	evPCRead
+	evWTake
+	evWProc
+	evWErrSent
+	evWErrAbort
+	evWPut
+	evWPutAbort
+	evWExit
+	evATake
+	evADropCancel
+	evANext
+	evABuffer
+	evAErrSent
+	evAErrAbort
+	evASkip
+	evANotVal
+	evACancelled
+	evABegin
+	evAEnd
+	evAPop
+	evAPendStop
+	evAPendStopCancel
+	evAFwdSend
+	evAFwdDec
+	evAFwdDrop
+	evAFwdErr
+	evAFwdErrDrop
+	evAExit
+)
+
+func verifStamp() uint64                                        { return 0 }
+func verifLock()                                                {}
+func verifUnlock()                                              {}
+func verifTrace(kind int, stage Stage, seq uint64, arg int)     {}
+func verifTraceAt(st uint64, kind int, stage Stage, seq uint64) {}
+func verifTraceUnlock(kind int, seq uint64)                     {}
+func verifTraceProc(stage Stage, item *BlockItem, err error)    {}
+func verifB(b bool) int                                         { return 0 }
+func verifValidateOverride(item *BlockItem) (bool, error)       { return false, nil }
